@@ -420,6 +420,8 @@ def _match(val, pat):
             return False
         if "re" in pat and not (isinstance(val, str) and re.search(pat["re"], val)):
             return False
+        if "contains" in pat and not (isinstance(val, (list, str)) and pat["contains"] in val):
+            return False
         return True
     return val == pat
 
